@@ -8,8 +8,12 @@
    every other API program on ANY tree.  The reason is visible in the proof: the only step of any program that
    puts a file under content-v2 is the rename of the writer's temp file, issued when that file holds exactly the
    bytes that were hashed ([close_writer_steps]); incomplete data lives only in tmp/.
+   Over histories (SessP.v): after ANY sequence of API calls on one cache — several writers open at once, their chunks
+   interleaved, writes cancelled while in flight (OAbandon), writers dropped or committed in any order — the invariant
+   holds, every open writer's temp file holds exactly the bytes its digest covers, and a kill during the next call
+   leaves only matching content files ([clear] under open writers, link_to and damage steps excluded).
    Modelled, not verified: atomicity of rename(2); posix_fallocate and remove_dir_all as single steps. *)
-From CC Require Import Bytes Codec Utf8 Lines Json Sri Record Fs Prog Api Crash BytesP CodecP FsP ProgP SriP RecordP IndexP ReadP WriteP CommitP RemoveP CrashP.
+From CC Require Import Bytes Codec Utf8 Lines Json Sri Record Fs Prog Api Crash BytesP CodecP FsP ProgP SriP RecordP IndexP ReadP WriteP CommitP RemoveP CrashP Sess SessP.
 
 Section C03.
 Variable hash : algo -> bytes -> bytes.
@@ -58,6 +62,26 @@ Proof.
   - apply remove_hash_all. - apply remove_fully_all.
 Qed.
 
+(* every reachable state of every session, and every crash state of the next call *)
+Theorem C03_sessions ops o i :
+  Forall sess_op ops -> sess_op o ->
+  SInv hash (snd (run_ops hash sstate0 ops 0)) /\
+  Forall (ContentInv hash) (step_crash hash (snd (run_ops hash sstate0 ops 0)) o i).
+Proof.
+  intros H1 H2. split; [exact (run_ops_sinv hash HL ops sstate0 0 (sinv_init hash) H1)|exact (session_crash_content hash HL ops o i H1 H2)].
+Qed.
+
+(* what the session invariant says *)
+Theorem C03_sinv_meaning s :
+  SInv hash s ->
+  ContentInv hash (s_fs s) /\
+  (forall h ws, hget h (s_w s) = Some ws -> exists d, lookup (s_fs s) (w_tmp ws) = Some (File d) /\
+     match w_map ws with Some sz => takeN (w_pos ws) d = w_data ws | None => d = w_data ws end).
+Proof.
+  intros [Hc [Hw _]]. split; [exact Hc|]. intros h ws Hh. destruct (Hw h ws Hh) as [_ [d [Hl Hm]]]. exists d. split; [exact Hl|].
+  destruct (w_map ws); [exact (proj1 (proj2 (proj2 Hm)))|exact Hm].
+Qed.
+
 End C03.
 
 (* non-vacuity: the crash states of a mapped two-chunk write on the empty tree, all satisfying the invariant's
@@ -73,9 +97,23 @@ Example C03_example :
   existsb (fun g => match lookup g (InCache [bs "tmp"; [x54]]) with Some (File d) => bytes_eqb d [x61; x00; x00; x00] | _ => false end) cs = true.
 Proof. vm_compute. split; reflexivity. Qed.
 
+(* non-vacuity of the session theorem: two writers open at once, chunks interleaved, one write cancelled while in flight,
+   one writer dropped, the other committed; the crash states of the commit (several) are covered *)
+Example C03_example_session :
+  let ops := [OOpen Async 1%N (Some (bs "k")) (mkWopts (Some Sha1) None None None None None);
+              OOpen Sync 2%N None (mkWopts None None (Some 8%N) None None None);
+              OChunk 1%N (bs "ab"); OAbandon 1%N (bs "cdef"); OChunk 2%N (bs "xy"); OWrite1 1%N (bs "g");
+              OWrite Sync Sha256 (bs "other") (bs "data"); ODrop 2%N] in
+  Forall sess_op ops /\ sess_op (OCommit 1%N) /\
+  (1 < List.length (step_crash toy_hash (snd (run_ops toy_hash sstate0 ops 0)) (OCommit 1%N) 9%N))%nat /\
+  match hget 1%N (s_w (snd (run_ops toy_hash sstate0 ops 0))) with Some ws => w_data ws = bs "abcdefg" | None => False end.
+Proof. vm_compute. repeat split; repeat constructor. Qed.
+
 Print Assumptions C03_stream_write_crash.
 Print Assumptions C03_write_crash.
 Print Assumptions C03_write_hash_crash.
 Print Assumptions C03_content_inv_crash.
 Print Assumptions C03_close_writer_steps.
 Print Assumptions C03_other_ops.
+Print Assumptions C03_sessions.
+Print Assumptions C03_sinv_meaning.
